@@ -50,3 +50,23 @@ func (r *c04Run) sentToOthers() int {
 }
 
 var c04HandshakeReply = []byte{'T', 'R', 'T', 'P', 0, 0, 0, 0}
+
+// shared by C13 and C14: a message addressed to whatever ID a connected client holds reaches it, once, as its frame
+func cDeliverToHeldID() {
+	srv, _ := NewServer()
+	conn := &vRecConn{}
+	cc := &ClientConn{Connection: conn, Server: srv}
+	if mgr, ok := srv.ClientMgr.(*MemClientMgr); ok {
+		mgr.nextClientID.Store(vU32("connections_so_far"))
+	}
+	srv.ClientMgr.Add(cc)
+	data := vBytesEach("data", 2)
+	t := NewTransaction(TranServerMsg, cc.ID, NewField(FieldData, data))
+	ref := refTransaction(&t, [][]byte{refField(FieldData[0], FieldData[1], data)})
+	err := srv.sendTransaction(t)
+	vAssert("send_ok", err == nil)
+	vAssert("delivered_once_whatever_the_id", len(conn.writes) == 1)
+	if len(conn.writes) == 1 {
+		vAssertEqBytes("delivered_frame", conn.writes[0], ref)
+	}
+}
